@@ -138,21 +138,71 @@ def vclass_trees():
     return out
 
 
+def fixed_functions(ctx):
+    """templated functions sharing a radical between arguments, and functions over sets of integers of every value class"""
+    N = rg.N
+    L = lambda n: N('ID_LOCAL', n)
+    arg = lambda n, t: N('NT_ARG_DECL', None, [L(n), t])
+    R1 = lambda: N('ID_RADICAL', 'R1')
+    BZ = lambda: N('BOOLEAN', None, [N('LIT_INTSET')])
+    fd = lambda args, body: N('NT_FUNC_DEFINITION', None, [N('NT_ARGUMENTS', None, args), body])
+    defs = {
+        'F1': fd([arg('a', N('BOOLEAN', None, [R1()])), arg('b', N('BOOLEAN', None, [R1()]))], N('UNION', None, [L('a'), L('b')])),
+        'F2': fd([arg('a', N('BOOLEAN', None, [R1()])), arg('b', R1())], N('UNION', None, [L('a'), N('NT_ENUMERATION', None, [L('b')])])),
+        'F3': fd([arg('a', R1()), arg('b', N('BOOLEAN', None, [R1()]))], N('UNION', None, [N('NT_ENUMERATION', None, [L('a')]), L('b')])),
+        'F4': fd([arg('a', BZ())], N('DECART', None, [N('LIT_INTSET'), N('NT_ENUMERATION', None, [L('a')])])),      # property; needs a VALUE argument
+        'F5': fd([arg('a', BZ())], N('NT_ENUMERATION', None, [L('a')])),                                            # value; needs a value argument
+        'F6': fd([arg('a', BZ())], N('DECART', None, [N('LIT_INTSET'), L('a')])),                                   # property; tolerates a property argument
+    }
+    for name, tree in defs.items():
+        ty.add_function(ctx, name, tree)
+    ty.add_function(ctx, 'F7', fd([arg('a', BZ())], N('NT_FUNC_CALL', None, [N('ID_FUNCTION', 'F4'), L('a')])))      # forwards to F4
+
+
+def call_trees():
+    N = rg.N
+    G = lambda n: N('ID_GLOBAL', n)
+    E = lambda: N('LIT_EMPTYSET')
+    call = lambda f, *a: N('NT_FUNC_CALL', None, [N('ID_FUNCTION', f)] + list(a))
+    sets = {'empty': E, 'set-of-empty': lambda: N('NT_ENUMERATION', None, [E()]), 'X1': lambda: G('X1'), 'S1': lambda: G('S1'), 'S2': lambda: G('S2')}
+    elems = {'elem': lambda: N('DEBOOL', None, [G('X1')]), 'pair': lambda: N('DEBOOL', None, [G('S1')]), 'empty': E, 'set': lambda: G('X1')}
+    out = []
+    for an, a in sets.items():
+        for bn, b in sets.items():
+            c = call('F1', a(), b())
+            out.append((f'call:F1:{an}:{bn}', c))
+            out.append((f'call:F1-card-debool:{an}:{bn}', N('GREATER', None, [N('CARD', None, [N('DEBOOL', None, [call('F1', a(), b())])]), N('LIT_INTEGER', 0)])))
+            out.append((f'call:F1-Pr1:{an}:{bn}', N('BIGPR', [1], [call('F1', a(), b())])))
+        for en, e in elems.items():
+            out.append((f'call:F2:{an}:{en}', call('F2', a(), e())))
+            out.append((f'call:F3:{en}:{an}', call('F3', e(), a())))
+            out.append((f'call:F2-red:{an}:{en}', N('REDUCE', None, [call('F2', a(), e())])))
+    ints = {'Z': lambda: N('LIT_INTSET'), 'enum': lambda: N('NT_ENUMERATION', None, [N('LIT_INTEGER', 1), N('LIT_INTEGER', 2)]), 'empty': E,
+            'boolZ': lambda: N('BOOLEAN', None, [N('LIT_INTSET')])}
+    for f in ('F4', 'F5', 'F6', 'F7'):
+        for an, a in ints.items():
+            out.append((f'vcall:{f}:{an}', call(f, a())))
+            out.append((f'vcall-card:{f}:{an}', N('GREATER', None, [N('CARD', None, [call(f, a())]), N('LIT_INTEGER', 0)])))
+            out.append((f'vcall-define:{f}:{an}', N('PUNC_DEFINE', None, [G('D9'), call(f, a())])))
+    return out
+
+
 def refine_cases():
     ctx = ty.Ctx()
     ctx.types = {'X1': ty.S(ty.E('X1')), 'S1': ty.S(ty.T(ty.E('X1'), ty.E('X1'))), 'S2': ty.S(ty.S(ty.E('X1'))),
                  'D1': ty.S(ty.E('X1')), 'D5': ty.S(ty.E('X1')), 'D6': ty.S(ty.E('X1'))}
     ctx.traits = {'X1': 'nominal'}
     ctx.vclass = {'X1': 'value', 'S1': 'value', 'S2': 'value', 'D1': 'value', 'D5': 'props'}     # D6: typed, but no value class
+    fixed_functions(ctx)
     ops = [{'op': 'rs.ctx', 'ctx': 'c', 'spec': ctx.spec()}]
     items = []
-    for label, tree in refine_trees() + vclass_trees():
+    for label, tree in refine_trees() + vclass_trees() + call_trees():
         for syntax in ('MATH', 'ASCII'):
             src = rg.map_locals(tree, (lambda x: x) if syntax == 'MATH' else rg.translit)
             text, _sp = rg.render(src, syntax)
             ops.append({'op': 'rs.check', 'ctx': 'c', 'text': text, 'syntax': syntax})
             items.append({'tree': src, 'mut': label.split(':')[0], 'text': text, 'syntax': syntax})
-    meta_ctx = {'types': ctx.types, 'funcs': {}, 'traits': ctx.traits, 'vclass': ctx.vclass, 'bodies': {}}
+    meta_ctx = {'types': ctx.types, 'funcs': ctx.funcs, 'traits': ctx.traits, 'vclass': ctx.vclass, 'bodies': ctx.bodies}
     return [core.case(ops, kind='ctx', ctx=meta_ctx, items=items)]
 
 
